@@ -101,6 +101,7 @@ def _builtin_corpus():
         ("exists", ["exists", q1]),
         ("valuewrapper", ["vwterm", fa("x")]),
         ("attimezone", ["attz", fa("x"), "UTC"]),
+        ("set-operation", ["union", q1, {"from": [list(A)], "selects": [["field", "y", list(A), None]], "where": None}]),
         # shapes on which the property holds
         ("ok-basic", ["basic", "eq", fa("x"), fa("y"), None]),
         ("ok-nested", ["nested", "eq", "and", fa("x"), fa("y"), fa("z"), None]),
@@ -159,6 +160,10 @@ def run_impl(case):
         return {"build_exc": type(e).__name__}
     out["before"] = _texts(case, objA)
     out["expected"] = _texts(case, objB)
+    if ob.builder_flags(objA) != ob.builder_flags(objB):
+        # the two builds took different with_namespace decisions (pypika's _validate_table works on a set of Fields that
+        # collapses same-named columns): the comparison with "built with B" says nothing about replace_table
+        out["not_judged"] = "builder flags differ"
     if case["kind"] == "stmt":
         out["dump_before"] = ob.dump_query(objA)
         out["star_before"] = ob.star_names(objA)
@@ -205,7 +210,7 @@ def oracle(case, outcome):
                    "what": "replace_table raised %s (in %s.replace_table, slot %s) instead of returning the object built with B (%r)"
                            % (outcome["exc"], outcome["exc_at"][0], outcome["exc_at"][1], outcome.get("expected"))})
         return vs
-    if outcome["after"] != outcome["expected"]:
+    if outcome["after"] != outcome["expected"] and "not_judged" not in outcome:
         vs.append({"signature": ["C15"] + list(outcome.get("label", ["unlabelled"])),
                    "what": "replace_table(A,B) renders %r, the object built with B renders %r (A=%r B=%r)"
                            % (outcome["after"], outcome["expected"], case["A"], case["B"])})
